@@ -459,13 +459,13 @@ Lemma toks_variant_length : forall v, 1 <= length (toks_variant v).
 Proof. intros v. unfold toks_variant. len_tac. Qed.
 
 (* the body of a struct: fields, optional fallback, [}] *)
-Lemma struct_body_ok : forall fs fb n r,
+Lemma struct_body_ok : forall A (k : list field -> option fallback -> parser A) fs fb n r,
   Forall wf_field fs ->
   length (flat_map toks_field fs ++ toks_optl toks_fb_member fb ++ [TP PCurC]) < n ->
-  (fs' <- many n (struct_field n) ;; fb' <- opt (member_fallback n) ;; tokp PCurC ;;; ret (fs', fb'))
-    (flat_map toks_field fs ++ toks_optl toks_fb_member fb ++ TP PCurC :: r) = Some ((fs, fb), r).
+  (fs' <- many n (struct_field n) ;; fb' <- opt (member_fallback n) ;; tokp PCurC ;;; k fs' fb')
+    (flat_map toks_field fs ++ toks_optl toks_fb_member fb ++ TP PCurC :: r) = k fs fb r.
 Proof.
-  intros fs fb n r Hwf Hn. unfold bind at 1.
+  intros A k fs fb n r Hwf Hn. unfold bind at 1.
   assert (Hlen : length fs <= length (flat_map toks_field fs)).
   { apply flat_map_length_le. intros; apply toks_field_length. }
   rewrite (many_ok _ (struct_field n) toks_field).
@@ -481,13 +481,13 @@ Proof.
   - len_tac.
 Qed.
 
-Lemma enum_body_ok : forall vs fb n r,
+Lemma enum_body_ok : forall A (k : list variant -> option fallback -> parser A) vs fb n r,
   Forall wf_variant vs ->
   length (flat_map toks_variant vs ++ toks_optl toks_fb_member fb ++ [TP PCurC]) < n ->
-  (vs' <- many n (enum_variant n) ;; fb' <- opt (member_fallback n) ;; tokp PCurC ;;; ret (vs', fb'))
-    (flat_map toks_variant vs ++ toks_optl toks_fb_member fb ++ TP PCurC :: r) = Some ((vs, fb), r).
+  (vs' <- many n (enum_variant n) ;; fb' <- opt (member_fallback n) ;; tokp PCurC ;;; k vs' fb')
+    (flat_map toks_variant vs ++ toks_optl toks_fb_member fb ++ TP PCurC :: r) = k vs fb r.
 Proof.
-  intros vs fb n r Hwf Hn. unfold bind at 1.
+  intros A k vs fb n r Hwf Hn. unfold bind at 1.
   assert (Hlen : length vs <= length (flat_map toks_variant vs)).
   { apply flat_map_length_le. intros; apply toks_variant_length. }
   rewrite (many_ok _ (enum_variant n) toks_variant).
@@ -501,4 +501,277 @@ Proof.
     + rewrite <- ?app_assoc. apply enum_variant_stops_fb. cbn [toks_optl] in Hn. len_tac.
     + apply enum_variant_stops_close.
   - len_tac.
+Qed.
+
+(* ---------------------------------------------------------------- type_name_or_inline *)
+
+Lemma struct_body_start : forall fs fb r,
+  starts_pitem false true true true
+    (flat_map toks_field fs ++ toks_optl toks_fb_member fb ++ TP PCurC :: r) = false.
+Proof.
+  intros [|f fs] fb r; cbn [flat_map app].
+  - destruct fb as [f|]; cbn [toks_optl app]; [|reflexivity].
+    apply member_start_inline, fb_member_start.
+  - rewrite <- app_assoc. apply member_start_inline, field_start.
+Qed.
+
+Lemma enum_body_start : forall vs fb r,
+  starts_pitem false true true true
+    (flat_map toks_variant vs ++ toks_optl toks_fb_member fb ++ TP PCurC :: r) = false.
+Proof.
+  intros [|v vs] fb r; cbn [flat_map app].
+  - destruct fb as [f|]; cbn [toks_optl app]; [|reflexivity].
+    apply member_start_inline, fb_member_start.
+  - rewrite <- app_assoc. apply member_start_inline, variant_start.
+Qed.
+
+(* [struct {] / [enum {] is not a type name followed by [;] *)
+Lemma type_name_kw_curly : forall n w rest, bare_prefixed w = false ->
+  (t <- type_name n ;; tokp PTerm ;;; ret (ITy t)) (TWord w true :: TP PCurO :: rest) = None.
+Proof.
+  intros n w rest Hb. unfold bind at 1. destruct n as [|m]; [reflexivity|].
+  rewrite (type_name_word_ref m w true (TP PCurO :: rest) (Intern w) (TP PCurO :: rest));
+    [reflexivity | assumption | reflexivity | exact I].
+Qed.
+
+Lemma type_name_or_inline_ok : forall t n r, wf_tyinl t -> length (toks_tyinl t) < n ->
+  type_name_or_inline n (toks_tyinl t ++ r) = Some (t, r).
+Proof.
+  intros [t | d a fs fb | d a vs fb] n r Hwf Hn; unfold type_name_or_inline, toks_tyinl in *;
+    cbn [wf_tyinl] in Hwf.
+  - unfold alt, bind at 1. rewrite <- app_assoc.
+    rewrite type_name_ok; [reflexivity | assumption | exact I | len_tac].
+  - unfold alt at 1. unfold W. cbn [app]. rewrite type_name_kw_curly by reflexivity.
+    unfold alt at 1. unfold struct_inline. unfold bind at 1. cbn [kw_ws].
+    change ("struct" =? "struct") with true. cbv iota. unfold bind at 1. cbn [tokp punct_eqb].
+    unfold bind at 1. norm.
+    rewrite prelude_ok; [| auto | auto | auto | apply struct_body_start | len_tac].
+    cbn [fst snd].
+    rewrite (struct_body_ok _ (fun fs0 fb0 => ret (IStruct d a fs0 fb0))); [reflexivity | assumption | len_tac].
+  - unfold alt at 1. unfold W. cbn [app]. rewrite type_name_kw_curly by reflexivity.
+    unfold alt at 1. unfold struct_inline at 1. unfold bind at 1. cbn [kw_ws].
+    change ("enum" =? "struct") with false. cbv iota.
+    unfold enum_inline. unfold bind at 1. cbn [kw_ws].
+    change ("enum" =? "enum") with true. cbv iota. unfold bind at 1. cbn [tokp punct_eqb].
+    unfold bind at 1. norm.
+    rewrite prelude_ok; [| auto | auto | auto | apply enum_body_start | len_tac].
+    cbn [fst snd].
+    rewrite (enum_body_ok _ (fun vs0 fb0 => ret (IEnum d a vs0 fb0))); [reflexivity | assumption | len_tac].
+Qed.
+
+(* ---------------------------------------------------------------- service items *)
+
+Lemma toks_prelude_comments : forall cs inline, toks_prelude cs [] [] inline = map TComment cs.
+Proof. intros. unfold toks_prelude. cbn. now rewrite app_nil_r. Qed.
+
+Lemma fn_part_ok : forall k p n r, wf_tyinl (p_ty p) -> length (toks_part k p) < n ->
+  fn_part n k (toks_part k p ++ r) = Some (p, r).
+Proof.
+  intros k [c t] n r Hwf Hn. unfold toks_part, fn_part in *. cbn [p_comment p_ty] in *.
+  rewrite toks_prelude_comments in *. unfold bind at 1. rewrite <- app_assoc.
+  rewrite comments_ok; [| exact I | len_tac].
+  unfold W. cbn [app]. unfold bind at 1. cbn [kw]. rewrite String.eqb_refl.
+  unfold bind at 1. cbn [tokp punct_eqb]. unfold bind at 1.
+  rewrite type_name_or_inline_ok; [reflexivity | assumption | len_tac].
+Qed.
+
+Lemma fn_part_stop_part : forall k k' p n r, (k' =? k) = false -> length (toks_part k' p) < n ->
+  fn_part n k (toks_part k' p ++ r) = None.
+Proof.
+  intros k k' [c t] n r Hk Hn. unfold toks_part, fn_part in *. cbn [p_comment p_ty] in *.
+  rewrite toks_prelude_comments in *. unfold bind at 1. rewrite <- app_assoc.
+  rewrite comments_ok; [| exact I | len_tac].
+  unfold W. cbn [app]. unfold bind at 1. cbn [kw]. rewrite Hk. reflexivity.
+Qed.
+
+Lemma fn_part_stop_close : forall k n r, fn_part n k (TP PCurC :: r) = None.
+Proof.
+  intros. unfold fn_part, bind at 1, comments. rewrite many_stop by reflexivity. reflexivity.
+Qed.
+
+Lemma opt_fn_part_ok : forall k o n rest, wf_part o ->
+  fn_part n k rest = None -> length (toks_optl (toks_part k) o) < n ->
+  opt (fn_part n k) (toks_optl (toks_part k) o ++ rest) = Some (o, rest).
+Proof.
+  intros k [p|] n rest Hwf Hnone Hn; unfold opt; cbn [toks_optl app].
+  - rewrite fn_part_ok; [reflexivity | exact Hwf | exact Hn].
+  - now rewrite Hnone.
+Qed.
+
+Lemma fn_part_none2 : forall k k1 k2 o1 o2 n r,
+  (k1 =? k) = false -> (k2 =? k) = false ->
+  length (toks_optl (toks_part k1) o1 ++ toks_optl (toks_part k2) o2) < n ->
+  fn_part n k (toks_optl (toks_part k1) o1 ++ toks_optl (toks_part k2) o2 ++ TP PCurC :: r) = None.
+Proof.
+  intros k k1 k2 [p1|] [p2|] n r H1 H2 Hn; cbn [toks_optl app] in *.
+  - rewrite <- ?app_assoc. apply fn_part_stop_part; [assumption | len_tac].
+  - apply fn_part_stop_part; [assumption | len_tac].
+  - apply fn_part_stop_part; [assumption | len_tac].
+  - apply fn_part_stop_close.
+Qed.
+
+Lemma fn_part_none1 : forall k k1 o1 n r,
+  (k1 =? k) = false -> length (toks_optl (toks_part k1) o1) < n ->
+  fn_part n k (toks_optl (toks_part k1) o1 ++ TP PCurC :: r) = None.
+Proof.
+  intros k k1 [p1|] n r H1 Hn; cbn [toks_optl app] in *.
+  - apply fn_part_stop_part; [assumption | len_tac].
+  - apply fn_part_stop_close.
+Qed.
+
+Lemma nonempty_false : forall A (l : list A), nonempty l = false -> l = [].
+Proof. destruct l; [reflexivity | discriminate]. Qed.
+
+Lemma fn_def_ok : forall f n r, wf_item (IFn f) -> length (toks_fn f) < n ->
+  fn_def n (toks_fn f ++ r) = Some (IFn f, r).
+Proof.
+  intros [c d name id args ok err] n r [Ha [Ho He]] Hn. unfold toks_fn, fn_def in *.
+  cbn [fn_comment fn_doc fn_name fn_id fn_args fn_ok fn_err] in *.
+  unfold bind at 1. rewrite <- app_assoc.
+  rewrite prelude_ok; [| auto | auto | auto | reflexivity | len_tac].
+  cbn [fst snd]. unfold W. cbn [app].
+  unfold bind at 1. cbn [kw_ws]. change ("fn" =? "fn") with true. cbv iota.
+  unfold bind at 1. cbn [ident]. unfold bind at 1. cbn [tokp punct_eqb].
+  unfold bind at 1. cbn [lit_int]. unfold bind at 1.
+  unfold fn_full_body in *. cbn [fn_args fn_ok fn_err] in *.
+  destruct (is_some args || part_has_comment ok || is_some err) eqn:Hfull.
+  - (* { args ok err } *)
+    cbn [app]. unfold fn_body, alt at 1. unfold bind at 1. cbn [tokp punct_eqb].
+    unfold bind at 1. rewrite <- !app_assoc.
+    rewrite opt_fn_part_ok; [| assumption | apply fn_part_none2; [reflexivity | reflexivity | len_tac] | len_tac].
+    unfold bind at 1.
+    rewrite opt_fn_part_ok; [| assumption | apply fn_part_none1; [reflexivity | len_tac] | len_tac].
+    unfold bind at 1.
+    rewrite opt_fn_part_ok; [| assumption | apply fn_part_stop_close | len_tac].
+    reflexivity.
+  - apply orb_false_elim in Hfull. destruct Hfull as [Hfull Herr].
+    apply orb_false_elim in Hfull. destruct Hfull as [Hargs Hok].
+    destruct args; [discriminate|]. destruct err; [discriminate|].
+    destruct ok as [[oc ot]|].
+    + cbn [part_has_comment p_comment] in Hok. apply nonempty_false in Hok. subst oc.
+      cbn [p_ty app]. unfold fn_body, alt at 1. unfold bind at 1. cbn [tokp punct_eqb].
+      unfold alt at 1. unfold bind at 1. cbn [tokp punct_eqb]. unfold bind at 1.
+      rewrite type_name_or_inline_ok; [reflexivity | exact Ho | cbn [p_ty] in Hn; len_tac].
+    + reflexivity.
+Qed.
+
+Lemma event_def_ok : forall e n r, wf_item (IEv e) -> length (toks_ev e) < n ->
+  event_def n (toks_ev e ++ r) = Some (IEv e, r).
+Proof.
+  intros [c d name id t] n r Hwf Hn. unfold toks_ev, event_def in *. cbn [wf_item] in Hwf.
+  cbn [ev_comment ev_doc ev_name ev_id ev_ty] in *.
+  unfold bind at 1. rewrite <- app_assoc.
+  rewrite prelude_ok; [| auto | auto | auto | reflexivity | len_tac].
+  cbn [fst snd]. unfold W. cbn [app].
+  unfold bind at 1. cbn [kw_ws]. change ("event" =? "event") with true. cbv iota.
+  unfold bind at 1. cbn [ident]. unfold bind at 1. cbn [tokp punct_eqb].
+  unfold bind at 1. cbn [lit_int]. unfold bind at 1.
+  destruct t as [t|]; cbn [app].
+  - unfold alt at 1. unfold bind at 1. cbn [tokp punct_eqb]. unfold bind at 1.
+    rewrite type_name_or_inline_ok; [reflexivity | assumption | len_tac].
+  - reflexivity.
+Qed.
+
+Lemma item_fallback_ok : forall k f n r, length (toks_item_fb k f) < n ->
+  item_fallback n k (toks_item_fb k f ++ r) = Some (f, r).
+Proof.
+  intros k [c d name] n r Hn. unfold toks_item_fb, item_fallback in *.
+  cbn [fb_comment fb_doc fb_name] in *.
+  unfold bind at 1. rewrite <- app_assoc.
+  rewrite prelude_ok; [| auto | auto | auto | reflexivity | len_tac].
+  cbn [fst snd]. unfold W. cbn [app]. unfold bind at 1. cbn [kw_ws]. rewrite String.eqb_refl.
+  reflexivity.
+Qed.
+
+(* failing alternatives: a parser that wants keyword [k] after the prelude, on tokens whose
+   prelude is followed by another word *)
+Lemma item_fallback_wrong_kw : forall k k' f n r, (k' =? k) = false ->
+  length (toks_item_fb k' f) < n -> item_fallback n k (toks_item_fb k' f ++ r) = None.
+Proof.
+  intros k k' [c d name] n r Hk Hn. unfold toks_item_fb, item_fallback in *.
+  cbn [fb_comment fb_doc fb_name] in *.
+  unfold bind at 1. rewrite <- app_assoc.
+  rewrite prelude_ok; [| auto | auto | auto | reflexivity | len_tac].
+  cbn [fst snd]. unfold W. cbn [app]. unfold bind at 1. cbn [kw_ws]. rewrite Hk. reflexivity.
+Qed.
+
+Lemma item_fallback_close : forall k n r, item_fallback n k (TP PCurC :: r) = None.
+Proof.
+  intros. unfold item_fallback, bind at 1, prelude, bind at 1.
+  rewrite many_stop by (apply pitem_none; reflexivity). reflexivity.
+Qed.
+
+Definition service_item (n : nat) : parser item := alt (fn_def n) (event_def n).
+
+Lemma service_item_ok : forall i n r, wf_item i -> length (toks_item i) < n ->
+  service_item n (toks_item i ++ r) = Some (i, r).
+Proof.
+  intros [f|e] n r Hwf Hn; unfold service_item, alt; cbn [toks_item] in *.
+  - now rewrite fn_def_ok.
+  - assert (Hfn : fn_def n (toks_ev e ++ r) = None).
+    { destruct e as [c d name id t]. unfold toks_ev, fn_def in *.
+      cbn [ev_comment ev_doc ev_name ev_id ev_ty] in *.
+      unfold bind at 1. rewrite <- app_assoc.
+      rewrite prelude_ok; [| auto | auto | auto | reflexivity | len_tac]. reflexivity. }
+    rewrite Hfn. now apply event_def_ok.
+Qed.
+
+Lemma fn_def_stops_fb : forall k f n r, (k = "fn" \/ k = "event") ->
+  length (toks_item_fb k f) < n -> fn_def n (toks_item_fb k f ++ r) = None.
+Proof.
+  intros k [c d name] n r Hk Hn. unfold toks_item_fb, fn_def in *.
+  cbn [fb_comment fb_doc fb_name] in *.
+  unfold bind at 1. rewrite <- app_assoc.
+  rewrite prelude_ok; [| auto | auto | auto | reflexivity | len_tac].
+  destruct Hk as [-> | ->]; reflexivity.
+Qed.
+
+Lemma event_def_stops_fb : forall k f n r, (k = "fn" \/ k = "event") ->
+  length (toks_item_fb k f) < n -> event_def n (toks_item_fb k f ++ r) = None.
+Proof.
+  intros k [c d name] n r Hk Hn. unfold toks_item_fb, event_def in *.
+  cbn [fb_comment fb_doc fb_name] in *.
+  unfold bind at 1. rewrite <- app_assoc.
+  rewrite prelude_ok; [| auto | auto | auto | reflexivity | len_tac].
+  destruct Hk as [-> | ->]; reflexivity.
+Qed.
+
+Lemma service_item_stops_fb : forall k f n r, (k = "fn" \/ k = "event") ->
+  length (toks_item_fb k f) < n -> service_item n (toks_item_fb k f ++ r) = None.
+Proof.
+  intros. unfold service_item, alt. rewrite fn_def_stops_fb by assumption.
+  now apply event_def_stops_fb.
+Qed.
+
+Lemma service_item_stops_close : forall n r, service_item n (TP PCurC :: r) = None.
+Proof.
+  intros. unfold service_item, alt.
+  assert (H1 : fn_def n (TP PCurC :: r) = None).
+  { unfold fn_def, bind at 1, prelude, bind at 1.
+    rewrite many_stop by (apply pitem_none; reflexivity). reflexivity. }
+  rewrite H1. unfold event_def, bind at 1, prelude, bind at 1.
+  rewrite many_stop by (apply pitem_none; reflexivity). reflexivity.
+Qed.
+
+Lemma toks_item_length : forall i, 1 <= length (toks_item i).
+Proof. intros [f|e]; cbn [toks_item]; unfold toks_fn, toks_ev; len_tac. Qed.
+
+(* the tail of a service body: fallbacks and [}] *)
+Lemma service_tail_ok : forall A (k : option fallback -> option fallback -> parser A) ffb efb n r,
+  length (toks_optl (toks_item_fb "fn") ffb ++ toks_optl (toks_item_fb "event") efb) < n ->
+  (fb <- opt (service_fallback n) ;; tokp PCurC ;;;
+   k (match fb with Some x => fst x | None => None end) (match fb with Some x => snd x | None => None end))
+    (toks_optl (toks_item_fb "fn") ffb ++ toks_optl (toks_item_fb "event") efb ++ TP PCurC :: r)
+  = k ffb efb r.
+Proof.
+  intros A k [f|] [e|] n r Hn; cbn [toks_optl app] in *; unfold bind at 1, opt, service_fallback, alt.
+  - unfold bind at 1. rewrite <- ?app_assoc. rewrite item_fallback_ok by len_tac.
+    unfold bind at 1, opt. rewrite item_fallback_ok by len_tac. reflexivity.
+  - unfold bind at 1. rewrite item_fallback_ok by len_tac.
+    unfold bind at 1, opt. rewrite item_fallback_close. reflexivity.
+  - unfold bind at 1. rewrite item_fallback_wrong_kw by (reflexivity || len_tac).
+    unfold bind at 1. rewrite item_fallback_ok by len_tac.
+    unfold bind at 1, opt. rewrite item_fallback_close. reflexivity.
+  - unfold bind at 1. rewrite item_fallback_close.
+    unfold bind at 1. rewrite item_fallback_close. reflexivity.
 Qed.
